@@ -59,13 +59,13 @@ SignOut(method, rd, fault, stale) ==
     /\ IF fault = "none"
        THEN /\ jar' = {} /\ stored' = (IF DeleteKey THEN 0 ELSE stored)
             /\ hist' = Append(hist, [a |-> "signout", args |-> [method |-> method, rd |-> rd, fault |-> fault, stale |-> stale],
-                                     req |-> [status |-> 302, sessionCookiesLeft |-> 0, deletedAll |-> TRUE, deletionAttrsMatch |-> TRUE,
+                                     req |-> [redirected |-> TRUE, sessionCookiesLeft |-> 0, deletedAll |-> TRUE, deletionAttrsMatch |-> TRUE,
                                               keyExists |-> FALSE, stillSignedIn |-> FALSE]])
        ELSE \* the store fails (only the DEL, or every command of this request): the answer must be an error, not the redirect,
             \* as long as the stored session is still there
             /\ jar' = {} /\ stored' = stored
             /\ hist' = Append(hist, [a |-> "signout", args |-> [method |-> method, rd |-> rd, fault |-> fault, stale |-> stale],
-                                     req |-> [status |-> [not |-> 302], keyExists |-> TRUE]])
+                                     req |-> [redirected |-> FALSE, keyExists |-> TRUE]])
     /\ phase' = "out"
     /\ UNCHANGED <<snaps, cfg>>
 
